@@ -287,27 +287,48 @@ def covering_pairs(M, N, rng):
     out = [(a, rng.choice(t1)) for a in t0] + [(rng.choice(t0), b) for b in t1]
     return out
 
-def vsweep_1d(V, kind, rot=0):
-    """[(N, [axis,...])]: result extents V-1, V, V+1, 2V, 2V+1 with steps 1,2,3, first offsets 0..2, both the smallest and
-    the largest `last` that give that extent."""
+def vsweep(V, es=None, ss=(1, 2, 3), fs=(0, 1, 2), both=True, rot=0):
+    """[(N, e, s, [(f,l,enc),...])]: last-axis ranges whose extent e straddles the SIMD width V (V-1, V, V+1, 2V, 2V+1),
+    steps ss, first offsets fs, the smallest and (both) the largest `last` giving that extent; encodings round-robin."""
     out = []
     n = rot
-    for e in sorted({V - 1, V, V + 1, 2 * V, 2 * V + 1} - {0}):
-        for s in (1, 2, 3):
-            N = 2 + (e - 1) * s + 1 + 1
+    for e in (es or sorted({V - 1, V, V + 1, 2 * V, 2 * V + 1} - {0})):
+        for s in ss:
+            N = max(fs) + (e - 1) * s + 1 + 1
             sl = []
-            for f in (0, 1, 2):
-                ls = sorted({f + (e - 1) * s + 1, min(N, f + e * s)})
+            for f in fs:
+                ls = sorted({f + (e - 1) * s + 1, min(N, f + e * s)}) if both else [f + (e - 1) * s + 1 + (1 if (f + e) % 2 and s > 1 else 0)]
                 for l in ls:
-                    sl.append(ax1(kind, f, l, s, N, ENCS[n % 3])); n += 1
+                    sl.append((f, l, ENCS[n % 3])); n += 1
             out.append((N, e, s, sl))
     return out
+
+def lead_axis(fixed, M, n, allow_int=True):
+    """n-th choice for a leading axis of extent M (M >= 3): dynamic or compile-time vocabulary."""
+    if fixed:
+        menu = [fseq(0, M), fseq(1, M), fseq(0, M, 2), ALL, fseq(0, -1, 2), fseq(-M, -1), fseq(1, -2)]
+        if allow_int: menu += [fix(1), FIXLAST, fix(0)]
+    else:
+        menu = [seq(0, M), seq(1, M), seq(0, M, 2), SALL, seq(0, -1, 2), seq(-M, -1), seq(1, -2), ALL]
+        if allow_int: menu += [ix(1), LAST, FIRST]
+    return menu[n % len(menu)]
+
+def rand_axis(rng, kinds, N, allow_neg=True):
+    """random admissible argument for an axis of extent N from the given vocabulary"""
+    k = rng.choice(kinds)
+    if k in ('seq', 'fseq', 'iseq'):
+        f, l, s = rng.choice(triples(N, False))
+        enc = rng.choice(ENCS) if (allow_neg and k != 'iseq') else 'pos'
+        return ax1(k, f, l, s, N, enc)
+    if k in ('int', 'fix'): return Ax(k, rng.randrange(N))
+    return Ax(k)
 
 def cases(tier, seed):
     rng = random.Random(seed)
     out = []
     thorough = tier == 'thorough'
     TYPES = (INT, FLT, DBL)
+    SRC = ['own', 'map', 'const']
     for ni, isa in enumerate(isas(tier)):
       for std in (['c++14', 'c++17'] if thorough else ['c++14']):
         cfg = Cfg(isa, std)
@@ -320,34 +341,130 @@ def cases(tier, seed):
                 for kind in kinds:
                     out.append(scalar_index_case(ty, shape, cfg, kind))
             out.append(scalar_index_case(ty, (9,), cfg, 'own', brackets=True))
-        # ---------------- (b) dynamic seq ----------------
+        # ---------------- (b) dynamic seq / (c) compile-time fseq: rank 1 exhaustive ----------------
+        for N in range(1, 9):
+            for kind in ('seq', 'fseq'):
+                if thorough:
+                    tys = TYPES if main else [TYPES[(N + ni) % 3]]
+                    if kind == 'fseq' and N > 6: tys = [TYPES[(N + ni) % 3]]
+                else:
+                    if kind == 'fseq' and N > 5: continue
+                    tys = [TYPES[(N + ni + (kind == 'fseq')) % 3]]
+                for ty in tys:
+                    ti = TYPES.index(ty)
+                    srcs = ['own'] + (['const', 'map'] if (thorough and main and N <= 6) or (N == 5 and kind == 'seq') or (N == 4 and kind == 'fseq') else [])
+                    for src in srcs:
+                        out += exhaustive_1d('%s1-%s' % (kind, src), kind, ty, N, cfg, src, ENCS, per=12 if kind == 'seq' else 8,
+                                             rot=None if (thorough and main and src == 'own') else ti + N)
         for ti, ty in enumerate(TYPES):
             V = vec_elems(isa, ty)
-            # rank 1, exhaustive in (first,last,step) and the three encodings
-            if thorough:
-                Ns = range(1, 9) if main else (5, 8)
-            else:
-                Ns = [1, 2, 3, 4, 5, 6] + ([7, 8] if ti == ni % 3 else [])
-            for N in Ns:
-                srcs = ['own'] + (['const', 'map'] if (thorough and main) or N in (5,) else [])
-                for src in srcs:
-                    out += exhaustive_1d('seq1-' + src, 'seq', ty, N, cfg, src, ENCS, rot=None if thorough else ti + N)
-            # rank 1: result extent swept across the SIMD width
-            for (N, e, s, sl) in vsweep_1d(V, 'seq', rot=ti):
-                for src in (['own', 'const', 'map'] if thorough and main else ['own', 'map'] if s != 3 else ['const']):
-                    out.append(read_case('seq1v-' + src, ty, (N,), [(x,) for x in sl], cfg, src=src, ident='e%d.s%d' % (e, s)))
-            # rank 2: full product on small shapes, covering pairs on 5x6
+            # ---------------- rank 1 and 2: result extent swept across the SIMD width ----------------
+            for kind in ('seq', 'fseq'):
+                fixed = kind == 'fseq'
+                sweep = vsweep(V, rot=ti, both=thorough, ss=(1, 2, 3) if (thorough or not fixed) else (1, 2))
+                for n, (N, e, s, sl) in enumerate(sweep):
+                    if e > 17 and not thorough: sl = sl[:2]
+                    for src in (SRC if thorough and main else [SRC[(n + ti) % 3]]):
+                        out.append(read_case('%s1v-%s' % (kind, src), ty, (N,), [(ax1(kind, f, l, s, N, enc),) for (f, l, enc) in sl], cfg, src=src, ident='e%d.s%d' % (e, s)))
+                    # rank 2: leading axis from the menu, last axis swept
+                    if e > 17 and not thorough: continue
+                    for src in (SRC if thorough and main else [SRC[(n + ti + 1) % 3]]):
+                        M = 3
+                        sl2 = [(lead_axis(fixed, M, n + q), ax1(kind, f, l, s, N, enc)) for q, (f, l, enc) in enumerate(sl[:3] if not thorough else sl)]
+                        out.append(read_case('%s2v-%s' % (kind, src), ty, (M, N), sl2, cfg, src=src, ident='e%d.s%d' % (e, s)))
+            # ---------------- rank 2: products of triples ----------------
             if thorough:
                 full = [(3, 4), (4, 5)] if main else [(3, 4)]
             else:
-                full = [(3, 4)] if ti == (ni + 1) % 3 else [(2, 3)]
+                full = [(3, 4)] if ti == (ni + 1) % 3 else []
             for shape in full:
                 pairs = [(a, b) for a in triples(shape[0], False) for b in triples(shape[1], False)]
                 out += product_2d('seq2-own', 'seq', ty, shape, cfg, 'own', pairs, ENC2, ident='p')
-            for shape in ([(5, 6), (4, 5)] if not thorough else [(5, 6)]):
+                if thorough and shape == (3, 4):
+                    out += product_2d('fseq2-own', 'fseq', ty, shape, cfg, 'own', pairs, ENC2, per=6, ident='p')
+            for shape in ([(4, 5)] if not thorough else [(5, 6)]):
                 pairs = covering_pairs(shape[0], shape[1], rng)
-                for src in ('own', 'const', 'map'):
-                    out += product_2d('seq2-' + src, 'seq', ty, shape, cfg, src, sample(rng, pairs, 40 if not thorough else 200) if src != 'own' else pairs, ENC2, ident='c')
+                for si, src in enumerate(SRC):
+                    sel = pairs if (src == 'own' and (thorough or ti == ni % 3)) else sample(rng, pairs, 10 if not thorough else 60)
+                    out += product_2d('seq2-' + src, 'seq', ty, shape, cfg, src, sel, ENC2, per=10 if src != 'map' else 5, ident='c')
+                    selx = sample(rng, pairs, (12 if src == 'own' else 6) if not thorough else 60)
+                    out += product_2d('fseq2-' + src, 'fseq', ty, shape, cfg, src, selx, ENC2, per=6, ident='c')
+                # mixed dynamic / compile-time arguments (rank 2 overloads)
+                for si, src in enumerate(SRC):
+                    combos = [('seq', 'fseq'), ('fseq', 'seq')] if src != 'const' else []   # const rank-2 tensors do not accept seq/fseq mixtures
+                    for kk in combos:
+                        out += product_2d('mixed2-' + src, kk, ty, shape, cfg, src, sample(rng, pairs, 6 if not thorough else 30), ENC2, per=6, ident=kk[0][0] + kk[1][0])
+                    # integer / last / first / fix / all in one of the two positions
+                    sl = []
+                    M, N = shape
+                    for q in range(8 if not thorough else 24):
+                        other = rand_axis(rng, ['seq', 'fseq', 'all'] if src != 'const' or q % 2 else ['seq'], N if q % 2 == 0 else M)
+                        if other.kind == 'seq' and src == 'const': pick = ['int', 'last', 'first']
+                        elif other.is_fixed() and src == 'const': pick = ['int', 'last', 'first', 'fix', 'fixlast']
+                        else: pick = ['int', 'last', 'first', 'fix', 'fixlast']
+                        one = rand_axis(rng, pick, M if q % 2 == 0 else N)
+                        sl.append((one, other) if q % 2 == 0 else (other, one))
+                    for ci, ch in enumerate(chunked(sl, 8)):
+                        out.append(read_case('mixed2i-' + src, ty, shape, ch, cfg, src=src, ident='m%d' % ci))
+            # ---------------- rank 3 / 4: generic nD views ----------------
+            for shape in ([(2, 3, 4), (2, 2, 3, 3)] if not thorough else [(2, 3, 4), (3, 4, 5), (2, 2, 3, 3)]):
+                for fam, kinds in (('seqN', ['seq', 'seq', 'sall']), ('fseqN', ['fseq', 'fseq', 'all', 'fix', 'fixlast']),
+                                   ('mixedN', ['seq', 'fseq', 'all', 'int', 'last', 'first', 'fix', 'fixlast'])):
+                    for si, src in enumerate(SRC):
+                        if not thorough and (si + ti + len(shape)) % 3 != ni % 3 and fam != 'seqN': continue
+                        k = (6 if not thorough else 18) if fam != 'fseqN' else (4 if not thorough else 12)
+                        sl = []
+                        while len(sl) < k:
+                            axes = tuple(rand_axis(rng, kinds, N) for N in shape)
+                            if all(a.is_integer() for a in axes): continue
+                            sl.append(axes)
+                        for ci, ch in enumerate(chunked(sl, 6 if fam != 'fseqN' else 4)):
+                            out.append(read_case('%s-%s' % (fam, src), ty, shape, ch, cfg, src=src, ident='r%d' % ci))
+            # rank 3: last axis swept across V under leading axes
+            for kind in ('seq', 'fseq'):
+                fixed = kind == 'fseq'
+                for n, (N, e, s, sl) in enumerate(vsweep(V, es=[V, V + 1] if not thorough else [V - 1, V, V + 1, 2 * V] if V > 1 else [1, 2], ss=(1, 2), fs=(0, 1), both=False, rot=ti)):
+                    if V > 8 and not thorough and s == 2: continue
+                    src = SRC[(n + ti + ni) % 3]
+                    sl3 = [(lead_axis(fixed, 3, 2 * n + q + 1), lead_axis(fixed, 3, n + 3 * q), ax1(kind, f, l, s, N, enc)) for q, (f, l, enc) in enumerate(sl)]
+                    sl3 = [a for a in sl3 if not all(x.is_integer() for x in a)]
+                    out.append(read_case('%sNv-%s' % (kind, src), ty, (3, 3, N), sl3, cfg, src=src, ident='e%d.s%d' % (e, s)))
+            # ---------------- iseq (immediate evaluation): ranks 1, 2, 4 on tensors, rank 3 on const tensors ----------------
+            if thorough or ti == (ni + 2) % 3:
+                for shape, src in (((7,), 'own'), ((4, 5), 'own'), ((2, 3, 4), 'const'), ((2, 2, 3, 3), 'own')):
+                    k = {1: 12, 2: 8, 3: 5, 4: 3}[len(shape)] * (2 if thorough else 1)
+                    sl = [tuple(rand_axis(rng, ['iseq'], N) for N in shape) for _ in range(k)]
+                    seen_ = set(); sl = [x for x in sl if not (slice_tag(x) in seen_ or seen_.add(slice_tag(x)))]
+                    for ci, ch in enumerate(chunked(sl, 6 if len(shape) < 3 else 3)):
+                        out.append(read_case('iseq%d-%s' % (len(shape), src), ty, shape, ch, cfg, src=src, ident='i%d' % ci))
+            # ---------------- (d) slices inside expressions ----------------
+            es = [V, V + 1] if not thorough else sorted({V - 1, V, V + 1, 2 * V + 1} - {0})
+            for n, (N, e, s, sl) in enumerate(vsweep(V, es=es, ss=(1, 2), fs=(0, 1), both=False, rot=ti)):
+                for kind in ('seq', 'fseq'):
+                    fixed = kind == 'fseq'
+                    src = SRC[(n + ti + fixed) % 3]
+                    a1 = [(ax1(kind, f, l, s, N, enc),) for (f, l, enc) in sl]
+                    a2 = [(lead_axis(fixed, 3, n + q + ti), ax1(kind, f, l, s, N, enc)) for q, (f, l, enc) in enumerate(sl)]
+                    out.append(read_case('%s1neg-%s' % (kind, src), ty, (N,), a1, cfg, src=src, ident='e%d.s%d' % (e, s), expr='neg'))
+                    out.append(read_case('%s2neg-%s' % (kind, src), ty, (3, N), a2, cfg, src=src, ident='e%d.s%d' % (e, s), expr='neg'))
+                    if ty.kind == 'int' or e <= 9:
+                        cfx = cfg if ty.kind == 'int' else Cfg(isa, std, pipe='P0')
+                        out.append(read_case('%s1dbl-%s' % (kind, src), ty, (N,), a1[:1], cfx, src=src, ident='e%d.s%d' % (e, s), expr='dbl'))
+                        out.append(read_case('%s2dbl-%s' % (kind, src), ty, (3, N), a2[1:], cfx, src=src, ident='e%d.s%d' % (e, s), expr='dbl'))
+                    # two slices with different ranges of equal extent, and a slice with a tensor
+                    if ty.kind == 'int' or e <= 9:
+                        (f, l, enc) = sl[0]
+                        other = ax1('seq' if fixed else 'fseq', 1, 1 + e, 1, e + 2, 'pos')
+                        ops = ['+', '-'] if ty.kind == 'int' else ['+', '-', '*', '/']
+                        op = ops[(n + ti + fixed) % len(ops)]
+                        out.append(expr_case('%s1x' % kind, ty, (N,), a1[0], cfg, op, (e + 2,), (other,), src=src))
+                        out.append(expr_case('%s1t' % kind, ty, (N,), a1[-1], cfg, ops[(n + 1) % len(ops)], src=src))
+                        lead = a2[0][0]
+                        if not lead.is_integer() and not lead.kind in ('fix', 'fixlast'):
+                            m = len(lead.sel(3))
+                            other2 = (ax1('seq', 3 - m, 3, 1, 3, 'pos'), ax1('seq', 0, e, 1, e + 1, 'nl'))
+                            if not (src == 'const' and not fixed and False):
+                                out.append(expr_case('%s2x' % kind, ty, (3, N), a2[0], cfg, op, (3, e + 1), other2, src=src))
     seen = set(); res = []
     for c in out:
         if c.cid not in seen: seen.add(c.cid); res.append(c)
